@@ -2,13 +2,20 @@
    Proved on the model of the control plane + stored engine (every flag word with
    FORCE_ALL_RAW_BLOCKS, i.e. level 0; the control plane is the code all levels share): for every
    compressor state, input chunk, output length and flush mode, a call never reports more input
-   consumed than was offered nor more output written than the buffer holds.  Losslessness is
-   decided per explored schedule by the extracted specification on the concatenated output; the
-   model is byte-exact against the implementation at level 0. *)
+   consumed than was offered nor more output written than the buffer holds; and losslessness under
+   EVERY schedule at level 0: for every input, every sequence of compress() calls (any chunking, any
+   output buffer lengths, flush None / Sync / Full / Finish, unconsumed input offered again) that ends
+   with Done has received a stream which the RFC 1951 / RFC 1950 specification decodes to exactly the
+   input consumed, all of the output being used.  For levels 1..10 losslessness is decided per
+   explored schedule by the extracted specification on the concatenated output (the Huffman / LZ
+   engines are outside the model): C02_level0_lossless_under_every_schedule_partial is the _partial
+   form of the full statement.  The model is byte-exact against the implementation at level 0. *)
 From Coq Require Import NArith List.
 From MZ.lib Require Import Mach.
+From MZ.spec Require Import DeflateSpec.
 From MZ.model Require Import DeflateCore.
-From MZ.proofs Require Import DeflateCounts.
+From MZ.proofs Require Import DeflateCounts StoredSpec StoredStream StoredSchedules.
+Import ListNotations.
 Local Open Scope N_scope.
 
 Theorem C02_counts_within_buffers :
@@ -16,3 +23,23 @@ Theorem C02_counts_within_buffers :
   compress c input out_len flush = Ret (CRet r) ->
   r_in r <= N.of_nat (length input) /\ N.of_nat (length (r_out r)) <= out_len.
 Proof. exact compress_counts. Qed.
+
+Theorem C02_level0_lossless_under_every_schedule_partial :
+  forall (data : list N) (flags wb : N) (sched : list (N * N * N)) (out : list N) (n : N),
+  hasf flags FLAG_RAW = true -> wb <= 15 -> bytes_ok data ->
+  Forall (fun it => legal_flush (snd it)) sched ->
+  drive (comp_new flags wb) data sched [] 0 = Ret (Some (out, n)) ->
+  n <= N.of_nat (length data) /\
+  exists blocks,
+    (if hasf flags FLAG_ZLIB then zlib_spec true out else inflate_spec out)
+    = SDone (firstn (N.to_nat n) data) (N.of_nat (length out)) blocks.
+Proof. exact level0_every_schedule. Qed.
+
+(* non-vacuity: a schedule with tiny output buffers, a sync and a full flush and an early Finish does end with Done;
+   (chunk offered, output length, flush) *)
+Example C02_a_schedule_that_finishes :
+  match drive (comp_new 528384 15) (repeat 65 300) [(7, 3, 0); (100, 5, 2); (50, 1000, 3); (1000, 4, 4); (0, 1000, 4)] [] 0 with
+  | Ret (Some (out, n)) => n = 300 /\ N.of_nat (length out) = 321
+  | _ => False
+  end.
+Proof. vm_compute. split; reflexivity. Qed.
